@@ -369,7 +369,7 @@ func main() {
 	seed := flag.Uint64("seed", 1, "seed")
 	outp := flag.String("out", "cases", "output prefix")
 	mode := flag.String("mode", "quick", "quick | thorough | spec")
-	in := flag.String("in", "", "spec file (JSON lines) for -mode spec")
+	in := flag.String("in", "", "spec file (JSON lines): the whole input of -mode spec, run first in the other modes")
 	repo := flag.String("repo", "/repo", "scratch copy of the tree (replace targets)")
 	bin := flag.String("bin", "", "directory holding the genum/gerror/gsort binaries")
 	farm := flag.String("farm", "", "directory of the scratch module (created)")
@@ -380,12 +380,8 @@ func main() {
 	r := gal.NewRand(*seed)
 
 	var specs []*Spec
-	switch *mode {
-	case "quick":
-		specs = quickSpecs(r)
-	case "thorough":
-		specs = thoroughSpecs(r, *subsetCap)
-	case "spec":
+	if *in != "" {
+		// corpus / replay / minimisation specs: run first
 		f, err := os.Open(*in)
 		if err != nil {
 			fmt.Fprintln(os.Stderr, err)
@@ -405,6 +401,13 @@ func main() {
 			specs = append(specs, s)
 		}
 		f.Close()
+	}
+	switch *mode {
+	case "quick":
+		specs = append(specs, quickSpecs(r)...)
+	case "thorough":
+		specs = append(specs, thoroughSpecs(r, *subsetCap)...)
+	case "spec":
 	default:
 		fmt.Fprintln(os.Stderr, "unknown mode")
 		os.Exit(2)
